@@ -202,7 +202,9 @@ TOKENS = ["(", ")", ",", " ", "/", "(", ")", ",", "Red", "Blue", "Event", "Senso
           "Event/Sensory-event", "Item/Object", "#", ":", "sc:", "xx:", "\t", " ", " ", "\n", "Def/", "{", "}",
           "sc:Hiccup", "Duration/3 ms", "RED", "a", "b", "Action/Move/Flex", "  ",
           # text that is not in Unicode normal form (combining mark, Hangul jamo, compatibility singleton)
-          "Label/Cafe\u0301", "e\u0301", "\u1100\u1161", "\u212b", "\ufb01"]
+          "Label/Cafe\u0301", "e\u0301", "\u1100\u1161", "\u212b", "\ufb01",
+          # spellings whose casefold() has another length than the text (sharp s, ligatures) in front of a slash
+          "Pre\u00df/Foo", "Loudne\u00df/5", "De\ufb01nition/MyDef", "O\ufb00set", "Label/Stra\u00dfe", "Pre\u00df"]
 
 text_strategy = st.builds(
     lambda toks, sch: {"text": "".join(toks), "schema": sch},
